@@ -227,8 +227,23 @@ ProbOk(ws, pr) ==
   /\ (MonoUp(ws, pr) \/ MonoDown(ws, pr))
 \* number of support vectors = number of non-zero coefficients: every coefficient that is visibly
 \* non-zero counts, a coefficient that is exactly zero (flag z) never does
-NsupOk(A, z, nsup) ==
-  /\ Cardinality({i \in 1..Len(A) : A[i] # 0}) <= nsup
+\* (nzmin: smallest logged magnitude that certainly counts: nsupport() counts |a| > 100 machine epsilons,
+\* i.e. 1.2e-5 for f32 -- 13 units of the 10^-6 log -- and 2e-14 for f64 -- 1 unit)
+NzMin(In) == IF In.ft = "f32" THEN 13 ELSE 1
+NsupOk(A, z, nsup, nzmin) ==
+  /\ Cardinality({i \in 1..Len(A) : Abs(A[i]) >= nzmin}) <= nsup
   /\ nsup <= Cardinality({i \in 1..Len(A) : ~z[i]})
+
+\* the stored support-vector rows R of a non-linear model are the samples of the non-zero coefficients, in
+\* sample order: row k is the sample of the k-th non-zero coefficient (a coefficient below nzmin that is not
+\* exactly zero may or may not count -- TLC searches the assignment)
+RECURSIVE SvMatch(_, _, _, _, _, _, _)
+SvMatch(X, A, z, R, nzmin, i, r) ==
+  IF i > Len(X) THEN r = Len(R) + 1
+  ELSE IF Abs(A[i]) >= nzmin THEN r <= Len(R) /\ R[r] = X[i] /\ SvMatch(X, A, z, R, nzmin, i + 1, r + 1)
+  ELSE IF ~z[i] THEN \/ r <= Len(R) /\ R[r] = X[i] /\ SvMatch(X, A, z, R, nzmin, i + 1, r + 1)
+                     \/ SvMatch(X, A, z, R, nzmin, i + 1, r)
+  ELSE SvMatch(X, A, z, R, nzmin, i + 1, r)
+SvRowsOk(X, A, z, R, nsup, nzmin) == Len(R) = nsup /\ SvMatch(X, A, z, R, nzmin, 1, 1)
 
 =============================================================================
